@@ -116,6 +116,15 @@ func mkCert(a attrs, transID string, prins []string, reqUser string) *ssh.Certif
 	}
 	b := []byte(fmt.Sprintf(`{"prins":%s,"transID":%s,"reqUser":%s,"reqIP":"10.1.2.3","reqHost":"h","isFirefighter":%v,"isHWKey":%v,"isHeadless":%v,"isNonce":%v,"usage":%d,"touchPolicy":%d,"ver":1%s}`,
 		pj, tj, uj, a.FF, a.HW, a.Headless, a.Nonce, a.Usage, a.Touch, extra))
+	// JSON white space around the object is part of a JSON text (a KeyID that went through a tool which appends a line feed)
+	switch (a.Touch + 2*a.Opt + 3*a.Usage + len(transID)) % 7 {
+	case 0:
+		b = append(b, '\n')
+	case 1:
+		b = append([]byte(" "), append(b, '\r', '\n')...)
+	case 2:
+		b = append([]byte("\t"), b...)
+	}
 	c := &ssh.Certificate{KeyId: string(b), ValidPrincipals: prins}
 	// everything else about the certificate is irrelevant to its type, label and principals: varied
 	// (determined by the KeyID text, so that a case replays identically)
